@@ -1,6 +1,7 @@
 (** C09 — domain, forward-key and agent lookups select the documented best route. *)
+From Coq Require Import String.
 From Coq Require Import List NArith.
-From MM Require Import Model.RouteTable Proofs.RouteTableBase Proofs.RouteTableProofs.
+From MM Require Import Model.RouteTable Model.RouteTableSource Proofs.RouteTableBase Proofs.RouteTableProofs Proofs.RouteTableExamples Generated.C09.
 Import ListNotations.
 Local Open Scope N_scope.
 
@@ -91,3 +92,33 @@ Theorem C09_agent_lookup : forall (local : N) (ops : list op) (agent : N),
   end.
 Proof. exact agent_over_histories. Qed.
 Print Assumptions C09_agent_lookup.
+
+(** Non-vacuity: a reachable state in which every branch occurs. Stored:
+    "*.Example.com" (metric 1), "api.example.COM" (metric 9),
+    "API.example.com" (metric 5); forward key "web" twice; agent 3 via two
+    next hops. *)
+Example C09_instances :
+  dres ex_dom_ops "Api.Example.Com" = Some (str_of "API.example.com", 5) /\
+  dres ex_dom_ops "www.example.com" = Some (str_of "*.Example.com", 1) /\
+  dres ex_dom_ops "a.www.example.com" = None /\
+  dres ex_dom_ops "example.com" = None /\
+  (match snd (step 0 (run 0 ex_dom_ops) (OFLookup (str_of "web"))) with FFwd _ r => Some (e_data r, e_metric r) | _ => None end
+     = Some (str_of "h:2", 2)) /\
+  (match snd (step 0 (run 0 ex_dom_ops) (OALookup 3)) with FAgent _ r => Some (e_nexthop r, e_metric r) | _ => None end
+     = Some (2, 2)) /\
+  snd (step 0 (run 0 ex_dom_ops) (OALookup 4)) = FNone.
+Proof. exact domain_examples. Qed.
+
+(** The facts regenerated from domain.go, forward.go and agent.go on this run
+    are the ones the model follows: the domain lookup lower-cases first, tries
+    the exact map before the wildcard map, strips exactly one label (no loop),
+    returns the head of the bucket; map keys are lower-cased; all three sorts
+    are ascending in the metric; the keyed lookups return the bucket head. *)
+Theorem C09_source_facts :
+  gen_domain_lookup_lowercases_first = true /\ gen_domain_exact_before_wildcard = true /\
+  gen_domain_wildcard_strips_one_label = true /\ gen_domain_returns_bucket_head = true /\
+  gen_domain_keys_are_lowercased = true /\ gen_parse_pattern_shape = true /\
+  gen_sort_less = [src_sort_less; src_sort_less; src_sort_less] /\
+  gen_keyed_lookups_return_bucket_head = true.
+Proof. repeat split; reflexivity. Qed.
+Print Assumptions C09_source_facts.
